@@ -9,6 +9,7 @@ import (
 	"strings"
 
 	sdk "github.com/cosmos/cosmos-sdk/types"
+	authtypes "github.com/cosmos/cosmos-sdk/x/auth/types"
 
 	opchildtypes "github.com/initia-labs/OPinit/x/opchild/types"
 	ophosttypes "github.com/initia-labs/OPinit/x/ophost/types"
@@ -200,7 +201,20 @@ func (x *c04Run) l1Sender() string {
 	if x.r.Chance(15) {
 		u = upperBech32(u)
 	}
+	if x.r.Chance(8) { // a module account as depositor: the refund of its failed deposit is addressed to it
+		u = x.e1.ModAddr[ModL1Minter].String()
+	}
 	return u
+}
+
+// valid L1 address strings that are not user accounts: module accounts (blocked in the bank keeper
+// of the harness: gov, distribution, minter), the bridge's own escrow, another bridge's escrow.
+// SendCoins pays all of them; a withdrawal naming one must be claimable like any other.
+func (x *c04Run) specialRecipient() string {
+	e1 := x.e1
+	all := []string{e1.ModAddr[ModGov].String(), e1.ModAddr[ModDistr].String(), e1.ModAddr[ModL1Minter].String(),
+		ophosttypes.BridgeAddress(x.B).String(), ophosttypes.BridgeAddress(x.B + 1).String()}
+	return all[x.r.Intn(len(all))]
 }
 
 // one recorded withdrawal of the given kind and amount
@@ -230,6 +244,8 @@ func (x *c04Run) produce(kind int, di int, amt *big.Int) {
 			to = upperBech32(to)
 		case 1:
 			to = c04BadRecipients[r.Intn(len(c04BadRecipients))] // stays in escrow: not claimable, still a leaf
+		case 2, 3:
+			to = x.specialRecipient()
 		}
 		sc.register(from)
 		res := sc.Case.Do(L2Op{Kind: "withdraw", Sender: from, To: to, Denom: l2d, Amt: new(big.Int).Set(amt)})
@@ -341,13 +357,22 @@ func newC04Run(rep *Report, seed uint64, id int, shapeOff int, nDenoms int, rich
 		}
 		e1.Fund(u.Addr, cs.Sort())
 	}
-	x.c1 = &L1Case{ID: id, Env: e1, Track: &L1Track{Accts: []uint64{1, 2, 3, 4, 5, 6, 7, EscrowBase + x.B}, Denoms: x.bases, Bridges: []uint64{x.B}}, Parse: map[string]string{}}
+	{ // the minter module account holds funds of its own (it is used as an L1 depositor)
+		var cs sdk.Coins
+		for _, d := range x.bases {
+			cs = append(cs, coinOf(d, pow2(70)))
+		}
+		if err := e1.BK.MintCoins(e1.Ctx.WithEventManager(sdk.NewEventManager()), authtypes.Minter, cs.Sort()); err != nil {
+			panic(err)
+		}
+	}
+	x.c1 = &L1Case{ID: id, Env: e1, Track: &L1Track{Accts: []uint64{1, 2, 3, 4, 5, 6, 7, ModGov, ModDistr, ModL1Minter, EscrowBase + x.B, EscrowBase + x.B + 1}, Denoms: x.bases, Bridges: []uint64{x.B}}, Parse: map[string]string{}}
 	x.c1.Snapshot()
 	for b := uint64(1); b <= x.B; b++ {
 		cfg := &L1Config{Proposer: e1.User(1).Str, Challenger: e1.User(2).Str, Period: 7 * sec, Interval: 10 * sec, Start: 1, Submitter: e1.User(1).Str, Chain: 1, Meta: []byte("c04")}
 		e1.Resolve(e1.User(3).Str)
 		if res := x.l1(L1Op{Kind: "create", Sender: e1.User(3).Str, Config: cfg}); !res.OK {
-			panic("create bridge failed: " + res.Err)
+			x.viol(len(x.c1.Ops)-1, "C04:bridge-creation-rejected", "a valid CreateBridge was rejected: "+res.Err)
 		}
 	}
 	return x
@@ -360,13 +385,17 @@ func (x *c04Run) commitAndClaim() (tree *Tree, version byte, bhash []byte) {
 	for _, lf := range x.leaves {
 		ws = append(ws, lf.W)
 	}
+	if len(ws) == 0 { // nothing was recorded (only possible on a broken tree, already reported): nothing to commit
+		return nil, 0, nil
+	}
 	tree = BuildTree(ws)
 	version = byte(x.r.Intn(3))
 	bhash = x.r.Bytes(32)
 	x.now += 50 * sec
 	res := x.l1(L1Op{Kind: "propose", Sender: e1.User(1).Str, Bridge: x.B, Idx: 1, L2: 10, Root: outputRootOf(version, tree.Root(), bhash)})
 	if !res.OK {
-		panic("propose failed: " + res.Err)
+		x.viol(len(x.c1.Ops)-1, "C04:honest-proposal-rejected", "the proposer's honest output was rejected: "+res.Err)
+		return tree, version, bhash
 	}
 	// one second before finality nothing can be claimed
 	x.now += 6 * sec
@@ -421,11 +450,15 @@ func (x *c04Run) commitAndClaim() (tree *Tree, version byte, bhash []byte) {
 					ra := e1.BK.GetBalance(e1.Ctx, rcvAddr, lf.W.Denom).Amount.BigInt()
 					d := new(big.Int).Sub(ra, rb)
 					lf.Paid.Add(lf.Paid, d)
-					if d.Cmp(lf.W.Amt) != 0 {
+					if d.Cmp(lf.W.Amt) != 0 && !rcvAddr.Equals(escrow) {
 						x.viol(step, "C04:paid-wrong-amount", fmt.Sprintf("claim of withdrawal %d paid %s to the recipient, recorded amount %s", lf.W.Seq, d, lf.W.Amt))
 					}
 				}
-				if d := new(big.Int).Sub(eb, ea); d.Cmp(lf.W.Amt) != 0 {
+				if rcvAddr != nil && rcvAddr.Equals(escrow) { // paid from the escrow to itself
+					if ea.Cmp(eb) != 0 {
+						x.viol(step, "C04:paid-wrong-amount", "a claim addressed to the bridge's own escrow changed its balance")
+					}
+				} else if d := new(big.Int).Sub(eb, ea); d.Cmp(lf.W.Amt) != 0 {
 					x.viol(step, "C04:paid-wrong-amount", fmt.Sprintf("claim of withdrawal %d took %s from the escrow, recorded amount %s", lf.W.Seq, d, lf.W.Amt))
 				}
 				if !lf.Claimable {
@@ -496,6 +529,12 @@ func (x *c04Run) coq(tree *Tree) string {
 	} else {
 		ps = []int{0, n / 2, n - 1}
 	}
+	root := []byte{}
+	if tree != nil {
+		root = tree.Root()
+	} else {
+		ps = nil
+	}
 	for _, p := range ps {
 		pos = append(pos, coqU(uint64(p)))
 		var el []string
@@ -504,7 +543,7 @@ func (x *c04Run) coq(tree *Tree) string {
 		}
 		proofs = append(proofs, "OL "+coqList(el))
 	}
-	obs = append(obs, "OL "+coqList(leaves), "OB "+coqBytes(tree.Root()), "OL "+coqList(proofs))
+	obs = append(obs, "OL "+coqList(leaves), "OB "+coqBytes(root), "OL "+coqList(proofs))
 	l1rec := fmt.Sprintf("{| k_table := %s;\n    k_gov := %s; k_pool := %s;\n    k_parse := [];\n    k_bals := %s;\n    k_chans := [];\n    k_accts := %s; k_denoms := %s; k_bridges := %s;\n    k_claims := [];\n    k_channels := [];\n    k_ops := %s |}",
 		coqList(tbl), coqStr(e.Auth), coqU(ModDistr), coqList(c.Bals), coqList(accts), coqList(denoms), coqList(brs), "[\n      "+strings.Join(ops, ";\n      ")+"]")
 	return fmt.Sprintf("(%d%%N,\n {| q_l1 := %s;\n    q_bridge := %s;\n    q_events := %s;\n    q_pos := %s |},\n %s)",
@@ -571,6 +610,7 @@ func genC04(seed uint64, tier string, outdir string) *Report {
 			x.produce(1+i%3, 1, a)
 		}
 		x.produce(1, 0, big.NewInt(0)) // zero-amount failed deposit: recorded, never claimable
+		x.produce(3, 1, big.NewInt(0)) // zero amount, valid recipient, failing hook: refunded (zero), must not block
 		// a user that accumulated more than 2^64 by two faithful deposits cannot withdraw 2^64 at once
 		u := x.sc.Env.User(5)
 		for j := 0; j < 2; j++ {
@@ -639,13 +679,13 @@ func genC04(seed uint64, tier string, outdir string) *Report {
 		for j := 0; j < n; j++ {
 			kind := x.r.Weighted([]int{60, 15, 8, 17})
 			amt := c04Amount(x.r)
-			if kind == 1 && x.r.Chance(10) {
-				amt = big.NewInt(0)
+			if (kind == 1 || kind == 3) && x.r.Chance(10) {
+				amt = big.NewInt(0) // also: zero amount to a good recipient with a failing hook
 			}
 			x.produce(kind, x.r.Intn(len(x.bases)), amt)
 		}
 		if len(x.leaves) != n && len(rep.Violations) == 0 {
-			panic(fmt.Sprintf("generator produced %d leaves for size %d", len(x.leaves), n))
+			x.viol(0, "C04:generator-size", fmt.Sprintf("the run produced %d recorded withdrawals, %d were planned", len(x.leaves), n))
 		}
 		finish(x)
 		if n == 5 {
